@@ -45,6 +45,9 @@ pub enum Kind {
     /// `start: <[a0-a1]> "x" | <[b0-b1]> "y" | "e" "z"`: token ids that belong to two references (or to a reference and
     /// to text) must keep every alternative they belong to
     Overlap { a: (u32, u32), b: (u32, u32) },
+    /// `start: "<lit>" ( <ref1> | <ref2> | <ref3> ... ) "<tail>"` under a canonical tokenizer: a position where only token
+    /// references are possible (the marker byte is forced there) and several of them name one token each
+    RefChoice { lit: String, refs: Vec<RefSpec>, tail: String },
 }
 
 #[derive(Clone, Debug, Serialize, Deserialize)]
@@ -208,6 +211,79 @@ fn run_overlap(case: &Case, a: (u32, u32), b: (u32, u32), ctx: &mut Ctx) -> R {
 /// Canonical tokenizer, literal followed by (token reference | text): a special / marker token may be in the mask
 /// only if committing it succeeds (C01's clause, for the tokens this property is about), and never before the
 /// literal's bytes have been emitted.
+fn run_ref_choice(case: &Case, lit: &str, refs: &[RefSpec], tail: &str, ctx: &mut Ctx) -> R {
+    let mut vs = case.vocab.clone();
+    vs.canonical = true;
+    let vocab = match vs.build() {
+        Ok(v) => v,
+        Err(_) => return Ok(()),
+    };
+    let n = vocab.len();
+    let mut rendered = vec![];
+    let mut want: BTreeSet<u32> = BTreeSet::new();
+    for r in refs {
+        match render_ref(r, &vocab) {
+            Some(t) => rendered.push(t),
+            None => return Ok(()),
+        }
+        want.extend(denote(r, &vocab).into_iter().filter(|t| (*t as usize) < n));
+    }
+    let q = |x: &str| serde_json::to_string(x).unwrap();
+    let g = GrammarSpec::Lark(format!("start: {} ( {} ) {}\n", q(lit), rendered.join(" | "), q(tail)));
+    let f = factory(&vocab);
+    let mut m = matcher(&f, &g);
+    if m.is_error() {
+        ctx.class("compile_error");
+        return Ok(());
+    }
+    ctx.class("choice_of_references(canonical)");
+    let gtxt = g.text();
+    // commit the literal through the masks
+    let mut emitted: Vec<u8> = vec![];
+    let mut toks: Vec<u32> = vec![];
+    while emitted.len() < lit.len() {
+        let mask = match m.compute_mask() {
+            Ok(x) => x,
+            Err(_) => return Ok(()),
+        };
+        let ids: Vec<u32> = mask_ids(&mask, n).into_iter().filter(|t| !is_markerish(&vocab, *t)).collect();
+        let pick = ids.iter().cloned().find(|t| lit.as_bytes()[emitted.len()..].starts_with(vocab.bytes(*t)) && !vocab.bytes(*t).is_empty());
+        let t = match pick {
+            Some(t) => t,
+            None => return Ok(()),
+        };
+        if m.consume_token(t).is_err() {
+            return Ok(());
+        }
+        toks.push(t);
+        emitted.extend_from_slice(vocab.bytes(t));
+    }
+    // the reference position: the mask must be exactly the union of what the references denote
+    let mask = match m.compute_mask() {
+        Ok(x) => x,
+        Err(e) => {
+            if is_limit_error(&e.to_string()) {
+                return Ok(());
+            }
+            return ctx.fail("C19/reference-position-mask-differs", || format!("grammar {} after tokens {:?}: compute_mask failed: {}", gtxt, toks, short_err(&e.to_string())));
+        }
+    };
+    let got: BTreeSet<u32> = mask_ids(&mask, n).into_iter().collect();
+    ctx.eval(n as u64);
+    ctx.nontrivial(Fnv::new().str(&gtxt).finish());
+    if got != want {
+        return ctx.fail("C19/reference-position-mask-differs", || format!("grammar {} after tokens {:?}: mask {:?}, the references denote {:?}", gtxt, toks, got, want));
+    }
+    for &t in &want {
+        let mut c = m.deep_clone();
+        ctx.eval(1);
+        if let Err(e) = c.consume_token(t) {
+            return ctx.fail("C19/reference-position-mask-differs", || format!("grammar {} after tokens {:?}: denoted token {} does not commit: {}", gtxt, toks, t, short_err(&e.to_string())));
+        }
+    }
+    Ok(())
+}
+
 fn run_alt(case: &Case, lit: &str, r: &RefSpec, txt: &str, tail: &str, ctx: &mut Ctx) -> R {
     let mut vs = case.vocab.clone();
     vs.canonical = true;
@@ -315,7 +391,15 @@ impl Prop for C19 {
         let alt = (prop_oneof![Just("a"), Just("ab"), Just("x<"), Just("é")], refs, prop_oneof![Just("b"), Just("bc"), Just("|>")], prop_oneof![Just("c"), Just(""), Just("<a>")])
             .prop_map(|(lit, r, txt, tail)| Kind::Alt { lit: lit.to_string(), r, txt: txt.to_string(), tail: tail.to_string() });
         let overlap = (97u32..104, 0u32..6, 97u32..104, 0u32..6).prop_map(|(a, da, b, db)| Kind::Overlap { a: (a, a + da), b: (b, b + db) });
+        let single = prop_oneof![
+            3 => (0usize..SPECIAL_NAMES.len()).prop_map(RefSpec::Name),
+            3 => (250u32..270).prop_map(RefSpec::Id),
+            1 => ranges_strategy().prop_map(RefSpec::Ranges),
+        ];
+        let choice = (prop_oneof![Just("a"), Just("ab"), Just("é")], proptest::collection::vec(single, 2..6), prop_oneof![Just("z"), Just("<a>")])
+            .prop_map(|(lit, refs, tail)| Kind::RefChoice { lit: lit.to_string(), refs, tail: tail.to_string() });
         let kind = prop_oneof![
+            2 => choice,
             6 => proptest::collection::vec(seg_strategy(), 1..6).prop_map(Kind::Template),
             4 => textg.prop_map(Kind::Text),
             2 => alt,
@@ -330,6 +414,9 @@ impl Prop for C19 {
         }
         if let Kind::Overlap { a, b } = &case.kind {
             return run_overlap(case, *a, *b, ctx);
+        }
+        if let Kind::RefChoice { lit, refs, tail } = &case.kind {
+            return run_ref_choice(case, lit, refs, tail, ctx);
         }
         let vocab = match case.vocab.build() {
             Ok(v) => v,
@@ -356,7 +443,7 @@ impl Prop for C19 {
         }
 
         let (g, segs): (GrammarSpec, Option<&Vec<Seg>>) = match &case.kind {
-            Kind::Alt { .. } | Kind::Overlap { .. } => unreachable!(),
+            Kind::Alt { .. } | Kind::Overlap { .. } | Kind::RefChoice { .. } => unreachable!(),
             Kind::Template(segs) => match template_grammar(segs, &vocab) {
                 Some(t) => (GrammarSpec::Lark(t), Some(segs)),
                 None => return Ok(()),
